@@ -10,9 +10,10 @@ def build(ctx):
     ctx.log("translate", out)
     if not ok or "translate: Effects:" in out or "translate: EffectsAlias:" in out:
         ctx.diag.append("translator failed: " + out[-400:])
-    C.prove(ctx, ["Props/C14.v", "Props/C14Alias.v"],
+    C.prove(ctx, ["Props/C14.v", "Props/C14Alias.v", "Props/C14Obs.v"],
             ["Oblig/C14Obl.v", "Model/PurityFacts.v", "Model/EffectTable.v",
-             "Oblig/C14AliasObl.v", "Model/PurityAliasFacts.v", "Model/AliasTable.v"])
+             "Oblig/C14AliasObl.v", "Model/PurityAliasFacts.v", "Model/AliasTable.v",
+             "Oblig/C14ObsObl.v", "Model/PurityObsFacts.v"])
     ok, out = C.build_harness()
     ctx.log("go build", out)
     if not ok:
@@ -84,8 +85,9 @@ def run(ctx):
     ctx.search = search
     ctx.trusted += ["translator-ssa (golang.org/x/tools v0.29.0 go/packages + ssa + callgraph/cha): heap-write analysis of the call-graph closure of Validate/ValidateWith/Batch.Validate/String/MarshalJSON/Error/Writer.Write; over-approximate by construction (CHA, taint from parameters/receivers/free variables/globals), blind to writes through unsafe/reflect (fails closed if the package imports them)",
                     "hand model of the nil guards inside File.IsADV (tied by the correspondence on files with nil headers/controls)"]
-    ctx.assumptions += ["the observation of the model is the part of the file the table's effects can touch (per batch: header nil or its SEC code, control nil); every other field is unwritten by the table's soundness",
-                        "Reader.Read / File.Create end with File.IsADV (modelled as such, not derived; checked on every reader / generator file by the oracle)",
+    ctx.trusted += ["translator-ssa alias mode (translator-ssa/alias.go): the same SSA program and call graph over packages ach and ach/server, origin / re-slice marks on tainted values, go/ast reading of NewBatch's switch and the NewBatchXXX bodies, SSA dominators for the returns of Reader.Read / File.Create"]
+    ctx.assumptions += ["the observation of the model is the part of the file the table's effects can touch (per batch: header nil or its SEC code, control nil) plus the ValidateOpts stored on the file; every other field is unwritten by the table's soundness",
+                        "constructions are derived from regenerated tables (NewBatch's switch, constructor statements, return classes of Reader.Read / File.Create relative to File.IsADV, provenance chain NewBatch -> File.Batches in the Reader); assumed: the Reader starts from an empty File, and package-level Err... variables are non-nil",
                         "a file assembled with NewBatch(ADV) + AddBatch without File.Create is modified by the first Validate/Write (known finding)"]
     if not build(ctx):
         return
